@@ -12,7 +12,7 @@ import prog  # noqa
 import progcommon as P  # noqa
 from lib import f32, f2h, h2f  # noqa
 
-MODULES = ["InovesaModel.Props.C19", "InovesaModel.Props.C19Rows", "InovesaModel.Props.Tie", "InovesaModel.Props.TieMain"]
+MODULES = ["InovesaModel.Props.C19", "InovesaModel.Props.C19Rows", "InovesaModel.Props.TieRF", "InovesaModel.Props.TieMain"]
 LEVEL = "proof"
 
 
